@@ -144,6 +144,9 @@ pub struct Shard {
     pub max_samples: usize,
     pub distinct_cap: usize,
     pub distinct_overflow: u64,
+    pub violation_occurrences: u64,
+    /// set by Run::parallel for its worker threads: unwind out of the thread once saturated
+    pub stop_when_saturated: bool,
 }
 
 impl Shard {
@@ -156,6 +159,10 @@ impl Shard {
     }
     #[inline]
     pub fn eval(&mut self) {
+        if self.stop_when_saturated && self.violation_occurrences >= 300 {
+            // the tree breaks the property all over the place: stop this worker thread here (caught in Run::parallel)
+            std::panic::resume_unwind(Box::new(Saturated));
+        }
         self.evaluations += 1;
     }
     /// Record a case that is non-trivial by the engine's stated rule; `hash` identifies the case.
@@ -188,8 +195,15 @@ impl Shard {
             self.samples.push(v);
         }
     }
+    /// True once so many violations were recorded that exploring further only costs time
+    /// (a tree that breaks the property everywhere): engines may stop their loops early.
+    pub fn saturated(&self) -> bool {
+        self.violation_occurrences >= 300
+    }
+
     pub fn violation(&mut self, signature: impl Into<String>, what: impl Into<String>, replay: Value) {
         let signature = signature.into();
+        self.violation_occurrences += 1;
         // keep the first witness per signature and shard; count the rest
         self.count(&format!("violations[{signature}]"), 1);
         if self.violations.iter().any(|v| v.signature == signature) {
@@ -327,7 +341,13 @@ impl Run {
                     .name(format!("w{i}"))
                     .spawn_scoped(scope, move || {
                         let mut shard = Shard::new();
-                        f(i, &mut shard);
+                        shard.stop_when_saturated = true;
+                        let r = std::panic::catch_unwind(std::panic::AssertUnwindSafe(|| f(i, &mut shard)));
+                        if let Err(e) = r {
+                            if !e.is::<Saturated>() {
+                                std::panic::resume_unwind(e);
+                            }
+                        }
                         shard
                     })
                     .expect("spawn");
@@ -518,10 +538,24 @@ pub fn unhex(s: &str) -> Vec<u8> {
 /// Run `f` catching panics; the default panic hook's message is suppressed for
 /// the duration when `quiet`.
 pub fn catch<T>(f: impl FnOnce() -> T + std::panic::UnwindSafe) -> Result<T, String> {
-    std::panic::catch_unwind(f).map_err(|e| panic_message(&e))
+    match std::panic::catch_unwind(f) {
+        Ok(v) => Ok(v),
+        Err(e) => {
+            if e.is::<Saturated>() {
+                std::panic::resume_unwind(e);
+            }
+            Err(panic_message(&e))
+        }
+    }
 }
+
+/// Unwind payload used to stop a worker thread once it has recorded hundreds of violations.
+pub struct Saturated;
 
 /// Install a panic hook that stays silent (panics are reported by the monitors, with the case).
 pub fn quiet_panics() {
+    if std::env::var("VERIF_LOUD_PANICS").is_ok() {
+        return;
+    }
     std::panic::set_hook(Box::new(|_| {}));
 }
